@@ -750,7 +750,7 @@ public:
     // destructed, never use them after iovector destructed.
     ssize_t slice(size_t count, off_t offset, iovector_view* /*OUT*/ iov)
     {
-        if (count == 0) // empty slice
+        if (count == 0 || empty()) // empty slice
             return 0;
         if (iov->iovcnt == 0) {
             auto ptr = (struct iovec*)do_malloc(iovcnt() * sizeof(struct iovec));
